@@ -686,6 +686,28 @@ def request_grid_wide(part, tier='quick'):
                                        "Get wrapped (%d-byte material under a %d-byte key, request %d) differs "
                                        "from RFC 3394" % (msize, ksize, rep_),
                                        {'grid': 'requests-wide', 'family': 'wrap', 'kek': ksize, 'material': msize})
+                # the same twice within ONE request, followed by an encryption under the wrapped key's
+                # own material: every answer must still be the reference's
+                spec = W.wrapping_spec(kek_id)
+                gb = w.do(V, [W.p_get(t.uid(), wrapping_spec=spec), W.p_get(t.uid(), wrapping_spec=spec),
+                              W.p_get(t.uid())])
+                part.count('cases')
+                part.count('wide_requests')
+                if all(i.ok() for i in gb.items) and len(gb.items) == 3:
+                    mats = []
+                    for it in gb.items:
+                        m_ = None
+                        for path, node in W.ttlv.walk(it.payload):
+                            if node[0] == T.KEY_MATERIAL.value and node[1] == W.ttlv.BYTE_STRING:
+                                m_ = node[2]
+                        mats.append(m_)
+                    want = [R.aes_key_wrap(kek, mat), R.aes_key_wrap(kek, mat), mat]
+                    if mats != want:
+                        part.violation("wide-wrap-batch|kek=%d" % ksize,
+                                       "batch [Get wrapped, Get wrapped, Get] of a %d-byte key under a %d-byte key: "
+                                       "answers have %s bytes, expected %s" % (
+                                           msize, ksize, [len(x or b'') for x in mats], [len(x) for x in want]),
+                                       {'grid': 'requests-wide', 'family': 'wrap', 'kek': ksize, 'material': msize})
                 plain = w.do(V, W.p_get(t.uid()))
                 if _key_material(plain) != mat:
                     part.violation("wide-wrap-changed-stored-key", "after wrapped Gets the plain Get returns other "
